@@ -29,6 +29,9 @@ type API struct {
 	FailPartitionInfo func(db, coll string) error
 	// Auto, when set, synthesizes a downstream collection the first time an unknown one is asked for.
 	Auto func(db, name string) *Coll
+	// BeforeCollectionInfo, when set, is called (without the lock) before GetCollectionInfo answers; it may block to let the
+	// harness line up concurrent callers.
+	BeforeCollectionInfo func(db, name string)
 	// DBOf, when set, answers GetDatabaseName (the real client searches the downstream when the source database is gone).
 	DBOf func(coll, db string) (string, error)
 }
@@ -40,6 +43,13 @@ func key(db, name string) string {
 		db = "default"
 	}
 	return db + "/" + name
+}
+
+// SetBeforeCollectionInfo installs (or removes, with nil) the hook.
+func (a *API) SetBeforeCollectionInfo(f func(db, name string)) {
+	a.mu.Lock()
+	a.BeforeCollectionInfo = f
+	a.mu.Unlock()
 }
 
 func (a *API) Put(c *Coll) {
@@ -89,6 +99,12 @@ func (a *API) visible(c *Coll, tick bool) map[string]int64 {
 }
 
 func (a *API) GetCollectionInfo(ctx context.Context, collectionName, databaseName string) (*model.CollectionInfo, error) {
+	a.mu.Lock()
+	hold := a.BeforeCollectionInfo
+	a.mu.Unlock()
+	if hold != nil {
+		hold(databaseName, collectionName)
+	}
 	a.mu.Lock()
 	defer a.mu.Unlock()
 	a.Calls["GetCollectionInfo"]++
